@@ -16,8 +16,22 @@ def arena(size, seed):
     return bytearray((p * (size // 251 + 1))[:size])
 
 
+_pow2 = {}
+
+
 def H(b):
-    return int.from_bytes(bytes(b), "little") % P
+    """little-endian integer of the bytes, mod P.  Large inputs are folded in halves first
+    (x = hi * 2^k + lo = hi * (2^k mod P) + lo (mod P)): same value, without a long division per case"""
+    x = int.from_bytes(bytes(b), "little")
+    n = len(b) * 8
+    while n > 512:
+        k = n // 2
+        c = _pow2.get(k)
+        if c is None:
+            c = _pow2[k] = pow(2, k, P)
+        x = (x >> k) * c + (x & ((1 << k) - 1))
+        n = max(n - k + 56, k) + 1
+    return x % P
 
 
 PAGE = 4096
@@ -460,6 +474,7 @@ def run(ctx):
         "the harness strips #[no_mangle] so the functions are called by path; for the exported symbols themselves only a static observation is made (tiny-start built with feature mem-symbols defines the five symbols and none of their bodies calls a mem symbol)",
     ]
     ctx.trusted.append("python oracle in checks/c08.py (C semantics by bytes slicing), arena hash = little-endian integer mod 2^55-55")
+    ctx.trusted.append("harness/c08 guard pages and access tracing: mprotect(PROT_NONE) on pages next to the operands / on the arena, SIGSEGV (+SIGTRAP single-step) handlers recording address and load/store (x86-64 page-fault error code)")
     ok = C.lean_prove(ctx, "TinyVerif.Props.C08", drivers=["drv_c08"])
     drv = [C.driver_path("drv_c08")]
     small = gen_small(ctx, nmax) + gen_mid(ctx, quick)
